@@ -25,6 +25,7 @@ import (
 	"verif/oracle"
 	"verif/props/common"
 	"verif/props/reg"
+	"verif/world"
 )
 
 func cases(tier string) int {
@@ -161,6 +162,18 @@ func run(r *mon.Report, tier string, idx int, rng *rand.Rand) {
 		}
 		for _, cmd := range cmds {
 			judge(r, d, cmd, caseDesc, s2s)
+		}
+		// commands stay in flight (their candidates keep their pods and are marked for deletion); most replacements come
+		// up as far as Registered: managed, with room, NOT initialized - nothing of another candidate may be re-homed there
+		for _, cmd := range cmds {
+			for _, rep := range cmd.Replacements {
+				if rep.Name == "" || rng.Intn(3) == 0 {
+					continue
+				}
+				if _, _, err := e.DriveClaim(rep.Name, world.StageRegistered); err == nil {
+					r.Inc("replacements_brought_up_to_registered_while_their_command_is_in_flight")
+				}
+			}
 		}
 		_ = e.SyncState()
 	}
